@@ -6,8 +6,10 @@
 //! exit:  0 property held on everything explored, 1 violation (VIOLATION line printed),
 //!        2 harness error (never a verdict).
 
+mod engine_world;
 mod kit;
 mod sim_a;
+mod sim_b;
 mod world;
 
 use kit::{Opts, Sim};
@@ -22,6 +24,10 @@ fn dispatch_run(prop: &str, opts: &Opts) -> i32 {
     match prop {
         "C01" => kit::run_batch(&sim_a::SimA { prop: sim_a::PropA::C01 }, opts).exit_code,
         "C09" => kit::run_batch(&sim_a::SimA { prop: sim_a::PropA::C09 }, opts).exit_code,
+        "C03" => kit::run_batch(&sim_b::SimB { prop: sim_b::PropB::C03 }, opts).exit_code,
+        "C14" => kit::run_batch(&sim_b::SimB { prop: sim_b::PropB::C14 }, opts).exit_code,
+        "C15" => kit::run_batch(&sim_b::SimB { prop: sim_b::PropB::C15 }, opts).exit_code,
+        "C19" => kit::run_batch(&sim_b::SimB { prop: sim_b::PropB::C19 }, opts).exit_code,
         other => {
             eprintln!("HARNESS-ERROR: no simulator registered for property {other}");
             2
@@ -34,6 +40,10 @@ fn dispatch_replay(file: &serde_json::Value, verif_dir: &str) -> i32 {
     match prop {
         "C01" => kit::replay(&sim_a::SimA { prop: sim_a::PropA::C01 }, file, verif_dir),
         "C09" => kit::replay(&sim_a::SimA { prop: sim_a::PropA::C09 }, file, verif_dir),
+        "C03" => kit::replay(&sim_b::SimB { prop: sim_b::PropB::C03 }, file, verif_dir),
+        "C14" => kit::replay(&sim_b::SimB { prop: sim_b::PropB::C14 }, file, verif_dir),
+        "C15" => kit::replay(&sim_b::SimB { prop: sim_b::PropB::C15 }, file, verif_dir),
+        "C19" => kit::replay(&sim_b::SimB { prop: sim_b::PropB::C19 }, file, verif_dir),
         other => {
             eprintln!("HARNESS-ERROR: no simulator registered for property {other}");
             2
